@@ -55,6 +55,44 @@ def salt_for(fmt, rnd):
     return None
 
 
+def bcrypt_salt(cost, rnd, prefix=b"2b"):
+    """a complete bcrypt salt string (what the libpass bcrypt hashers take as `salt`) at the given cost"""
+    h64 = "./ABCDEFGHIJKLMNOPQRSTUVWXYZabcdefghijklmnopqrstuvwxyz0123456789"
+    body = "".join(rnd.choice(h64) for _ in range(21)) + rnd.choice(".Oeu")
+    return b"$" + prefix + b"$%02d$" % cost + body.encode()
+
+
+def salt_cost_probe(chk, C, rnd):
+    """LibpassCtx.tla: a hash carries the cost it was MADE at, and needs_update compares that cost with the hasher's.  The libpass
+    bcrypt hashers accept a complete bcrypt salt, whose cost may differ from the hasher's own: the resulting string must verify
+    under both libraries, and be flagged exactly by hashers of another cost."""
+    for fmt in ("bcrypt", "bcsha"):
+        L, P = C[fmt]
+        for own in (4, 5, 6):
+            for cost in (4, 5, 6):
+                salt = bcrypt_salt(cost, rnd)
+                secret = rnd.choice(["correct horse", "p\u00e4ss", b"bytes\xff" if fmt == "bcsha" else b"bytes", ""])
+                chk.evaluations += 1
+                chk.count(("salt-cost", fmt, own, cost))
+                chk.action("l_hash:explicit-cost")
+                detail = {"format": fmt, "hasher_rounds": own, "salt": salt.decode(), "secret": repr(secret)}
+                try:
+                    text = L(rounds=own).hash(secret, salt=salt)
+                    detail["hash"] = text
+                    facts = {"libpass_verify": L(rounds=own).verify(text, secret), "passlib_verify": P.verify(secret, text),
+                             "wrong_password": L(rounds=own).verify(text, "x" + (secret if isinstance(secret, str) else "y")),
+                             "needs_update_same_cost": L(rounds=cost).needs_update(text), "needs_update_own": L(rounds=own).needs_update(text),
+                             "passlib_needs_update": P.using(rounds=cost).needs_update(text)}
+                except Exception as ex:
+                    chk.violation(f"salt-cost:{fmt}:{type(ex).__name__}", f"{fmt} hasher(rounds={own}).hash(.., salt of cost {cost}) raised {type(ex).__name__}: {ex}", detail)
+                    continue
+                want = {"libpass_verify": True, "passlib_verify": True, "wrong_password": False, "needs_update_same_cost": False,
+                        "needs_update_own": own != cost, "passlib_needs_update": False}
+                bad = sorted(k for k in want if facts[k] != want[k])
+                if bad:
+                    chk.violation(f"salt-cost:{fmt}:{'+'.join(bad)}", f"{fmt} hasher(rounds={own}).hash(.., salt of cost {cost}): {({k: facts[k] for k in bad})}, LibpassCtx.tla: {({k: want[k] for k in bad})}", dict(detail, facts=facts))
+
+
 def replay_beh(chk, C, beh, rnd):
     from libpass.context import CryptContext as LCtx
     real = {}
@@ -170,6 +208,7 @@ def run(chk):
     for b in behs:
         replay_beh(chk, C, b, rnd)
         chk.traces += 1
+    salt_cost_probe(chk, C, rnd)
     if behs:
         chk.sample({"context": behs[0][0]["S"], "steps": [{k: s[k] for k in ("op", "L", "h", "pw", "res")} for s in behs[0][1:4]]})
     chk.assumptions += ["bcrypt passwords are limited to 72 bytes (the limit the bcrypt library itself enforces)", "salts passed explicitly are non-empty"]
